@@ -368,6 +368,13 @@ func execAdd(o hx.Op) string {
 			x := int64(-0x0102030405060708)
 			return s.ReadASN1Integer(&x) && x == v
 		}, v, "", nil, nil)
+	case "marshal":
+		v, _ := strconv.ParseInt(o.Str("v"), 10, 64)
+		b.MarshalASN1(v)
+		return finAdd(&b, func(s *cryptobyte.String) bool {
+			x := int64(-0x0102030405060708)
+			return s.ReadASN1Integer(&x) && x == v
+		}, v, "", nil, nil)
 	case "int64tag":
 		v, _ := strconv.ParseInt(o.Str("v"), 10, 64)
 		t := tagOf(o)
@@ -971,7 +978,7 @@ func genAdd(g *hx.Gen) {
 		if !v.IsInt64() {
 			v = big.NewInt(int64(r.U64()))
 		}
-		f := r.PickStr("int64", "enum", "int64tag")
+		f := r.PickStr("int64", "enum", "int64tag", "marshal")
 		extra := ""
 		if f == "int64tag" {
 			extra = fmt.Sprintf(" tag=%02x", r.PickInt(2, 0x80, 0x9f, 0x1f, 10))
@@ -1115,7 +1122,7 @@ func genTime(g *hx.Gen) {
 }
 
 func gen(g *hx.Gen) {
-	n := g.Count(30000, 600000)
+	n := g.Count(30000, 400000)
 	for i := 0; i < n; i++ {
 		switch g.R.Intn(20) {
 		case 0, 1, 2, 3, 4, 5:
